@@ -53,10 +53,14 @@ def main(argv):
     pid, tier = argv[1], argv[2]
     replay = argv[argv.index("--replay") + 1] if "--replay" in argv else None
     seed = int(os.environ.get("VERIF_SEED", "20261001"))
+    rp = json.load(open(replay)) if replay else None
+    if rp is not None and "VERIF_SEED" not in os.environ and str(rp.get("seed", "")).lstrip("-").isdigit():
+        seed = int(rp["seed"])        # a replay regenerates the inputs of the run that wrote it
+    os.environ["VERIF_TIER_USED"] = tier
     t0 = time.time()
     sys.path.insert(0, C.REPO)
     ctx = Ctx(pid, tier, seed)
-    ctx.replay = json.load(open(replay)) if replay else None
+    ctx.replay = rp
 
     dog = C.start_watchdog(pid, tier, seed, 1500 if tier == "quick" else 6 * 3600)
     ok_build, build_out = C.ensure_build()
